@@ -1,6 +1,7 @@
 import Smtb.Proofs.Keccak.RelGadget
 import Smtb.Proofs.Keccak.Final
 import Smtb.Proofs.Keccak.Words
+import Smtb.Proofs.Keccak.InputBool
 /-!
 # C04 — the in-circuit Keccak gadget computes Keccak-256 / SHA3-256
 
@@ -77,7 +78,35 @@ theorem keccak_output_bits_unique [Fact p.Prime] (msg : List Bool) (h : 8 ∣ ms
   · intro e; exact (List.map_injective_iff.mpr Sat.embed_injective e)
   · intro e; rw [e]
 
+/-- **Inputs are constrained to be bits**: if the gadget's constraints are satisfiable at all
+(any continuation), every input element is boolean.  Any field, any length, any domain byte.
+(Every input slot is an argument of some `api.Xor`: in `Xor5` of the first round after it is
+copied into the zero state, or in the absorbing `Xor` of later blocks.) -/
+theorem keccakGadget_inputs_bool (dom : ℕ) (data : List (ZMod p)) (k : List (ZMod p) → Prop)
+    (h : (Keccak.keccakGadget dom data : SatM p _) k) : ∀ v ∈ data, isBool v :=
+  Proofs.Keccak.keccakGadget_inputs_bool dom data k h
+
+/-- a non-boolean input element makes the gadget unsatisfiable (not partial: every input position) -/
+theorem keccak_nonbool_input_unsat (dom : ℕ) (data : List (ZMod p)) (v : ZMod p) (hv : v ∈ data)
+    (hnb : ¬ isBool v) (k : List (ZMod p) → Prop) : ¬ (Keccak.keccakGadget dom data : SatM p _) k :=
+  fun h => hnb (keccakGadget_inputs_bool dom data k h v hv)
+
+/-- **Complete characterisation over a prime field**, for arbitrary field inputs: the gadget is
+satisfiable iff the input is a bit string, and then exactly with the `Bool` run as output. -/
+theorem keccakGadget_sat_iff [Fact p.Prime] (dom : ℕ) (data : List (ZMod p)) (k : List (ZMod p) → Prop) :
+    (Keccak.keccakGadget dom data : SatM p _) k
+      ↔ ∃ msg : List Bool, data = msg.map Sat.embed ∧ k ((gadgetSpecBits dom msg).map Sat.embed) := by
+  constructor
+  · intro h
+    obtain ⟨msg, rfl⟩ := (Sat.all_isBool_iff data).mp (keccakGadget_inputs_bool dom data k h)
+    exact ⟨msg, rfl, (keccakGadget_sat dom msg k).mp h⟩
+  · rintro ⟨msg, rfl, h⟩
+    exact (keccakGadget_sat dom msg k).mpr h
+
 #print axioms keccakGadget_sat
+#print axioms keccakGadget_inputs_bool
+#print axioms keccak_nonbool_input_unsat
+#print axioms keccakGadget_sat_iff
 #print axioms gadgetSpec_eq_keccak256
 #print axioms gadgetSpec_eq_sha3_256
 #print axioms newKeccak256_sat
@@ -92,6 +121,10 @@ theorem keccak_output_bits_unique [Fact p.Prime] (msg : List Bool) (h : 8 ∣ ms
 example (dom : ℕ) (msg : List Bool) :
     ∃ o, (Keccak.keccakGadget dom (msg.map Sat.embed) : SatM p _) (· = o) :=
   ⟨_, (keccakGadget_sat dom msg _).mpr rfl⟩
+
+/-- a non-boolean input exists and is rejected: `2` over `ZMod 7` -/
+example : ¬ (Keccak.newKeccak256 ([2] : List (ZMod 7)) : SatM 7 _) (fun _ => True) :=
+  keccak_nonbool_input_unsat 0x01 [2] 2 (by simp) (by unfold isBool; decide) _
 
 /-- byte-aligned messages exist, e.g. the empty one and any list of 8·n bits -/
 example : 8 ∣ ([] : List Bool).length := by decide
